@@ -16,6 +16,24 @@
 (* actions Connect* / Keyed* are enabled for every admissible backend.     *)
 (* `aff` is a history variable: what the affinity policies answered.       *)
 (* `last` is an observation variable (label of the step, for generators).  *)
+(*                                                                         *)
+(* Time (retry.rs): every Backend carries the policy's own clock           *)
+(* arithmetic - `wait` (the window drawn by the last counted failure, in   *)
+(* seconds) and `age` (seconds since `last_try`, i.e. since creation, the  *)
+(* last counted failure or the last success; saturating at AgeCap).  The   *)
+(* back-off window is NOT a flag: it is `age < wait`, computed the way     *)
+(* can_try() computes it, and it ends because Elapse(d) lets time pass for *)
+(* every live backend at once.  `bo` is a history variable: the seconds of *)
+(* back-off that remain according to the property's own notion (a failure *)
+(* outside a back-off opens one of the drawn length, a success ends it,    *)
+(* time consumes it).  The properties are phrased with `bo`, the code      *)
+(* model with age / wait.                                                  *)
+(*                                                                         *)
+(* `basis` is what the Maglev lookup table was built from: a sequence of   *)
+(* (address, clamped weight), <<>> = no table.  Every add / upsert /       *)
+(* removal and the installation of the policy object build it from the     *)
+(* full list; a keyed selection on an empty table builds it from the       *)
+(* candidates it was handed (cold start, load_balancing.rs:782).           *)
 (***************************************************************************)
 EXTENDS Naturals, Integers, Sequences, FiniteSets, TLC
 
@@ -33,12 +51,18 @@ CONSTANTS
   HCap,         \* cap of the consecutive success/failure counters (>= every threshold)
   MaxSteps,     \* bound on the history length (built into Next)
   MaxLoad,      \* bound on per-object opens / requests (built into the guards)
-  Deviations    \* open known findings modelled as the code behaves: subset of {"MaglevRebuild"}
+  Elapses,      \* the amounts of time (whole seconds) one Elapse step may let pass
+  AgeCap,       \* saturation of `age` (greater than every window the policy can draw)
+  Deviations    \* switches that make the model behave like a known / seeded defect.  Open finding:
+                \* "MaglevRebuild".  Self-tests (TLC must refute the property with each of them on):
+                \* "ColdStartTable"  - the policy object is installed without building the Maglev table,
+                \* "FailKeepsClock"  - a counted failure does not restart the back-off clock (last_try),
+                \* "SucceedKeepsWait" - a success restarts the clock but keeps the drawn window.
 
-VARIABLES objs, list, policy, metric, nextOid, aff, steps, last
+VARIABLES objs, list, policy, metric, basis, nextOid, aff, steps, last
 
-vars == <<objs, list, policy, metric, nextOid, aff, steps, last>>
-view == <<objs, list, policy, metric, nextOid, aff, steps>>      \* `last` is an observation only
+vars == <<objs, list, policy, metric, basis, nextOid, aff, steps, last>>
+view == <<objs, list, policy, metric, basis, nextOid, aff, steps>>      \* `last` is an observation only
 
 NoKey == -1
 NoSticky == ""
@@ -46,10 +70,17 @@ NoOid == -1
 
 ASSUME \A t \in Thresholds : t >= 1 /\ t <= HCap
 
+\* retry.rs fail(): the window is drawn from 1 .. 2^tries - 1 seconds (exactly 1 s for tries = 0), `tries` being the
+\* count BEFORE this failure, itself capped at the budget
+MaxW(t) == IF t = 0 THEN 1 ELSE 2^t - 1
+ASSUME AgeCap > MaxW(MaxTries)
+ASSUME \A d \in Elapses : d \in Nat /\ d >= 1
+
 ---------------------------------------------------------------------------
 (* Helpers *)
 
 Min2(a, b) == IF a < b THEN a ELSE b
+Monus(a, b) == IF a > b THEN a - b ELSE 0
 Dec1(n) == IF n > 0 THEN n - 1 ELSE 0
 Range(s) == {s[i] : i \in 1..Len(s)}
 Listed == Range(list)
@@ -58,9 +89,11 @@ Live == DOMAIN objs
 \* Backend::new
 NewObj(s, c) ==
   [id |-> s.id, addr |-> s.addr, backup |-> c.backup, sticky |-> c.sticky, weight |-> c.weight,
-   status |-> "normal", healthy |-> TRUE, cs |-> 0, cf |-> 0, tries |-> 0, waiting |-> FALSE,
+   status |-> "normal", healthy |-> TRUE, cs |-> 0, cf |-> 0,
+   tries |-> 0, wait |-> 0, age |-> 0,        \* ExponentialBackoffPolicy::new: last_try = now, wait = 0
    conns |-> 0, reqs |-> 0,
-   out |-> 0, rout |-> 0]       \* history: opens / requests the callers still hold
+   out |-> 0, rout |-> 0,       \* history: opens / requests the callers still hold
+   bo |-> 0]                    \* history: seconds of failure back-off that remain (the property's notion)
 
 \* An object lives as long as it is registered or somebody still holds a connection or request on it
 \* (the Rc is dropped with the last session).
@@ -76,14 +109,16 @@ Put(f, o, r) == [x \in DOMAIN f \cup {o} |-> IF x = o THEN r ELSE f[x]]
 (* else fail-open over every backend that is Normal and outside its back-off window          *)
 (* (primaries AND backups, healthy or not).                                                  *)
 
-CanOpenB(b) == b.healthy /\ b.status = "normal" /\ ~b.waiting
+\* ExponentialBackoffPolicy::can_try: WAIT while last_try.elapsed() < wait
+Waiting(b) == b.age < b.wait
+CanOpenB(b) == b.healthy /\ b.status = "normal" /\ ~Waiting(b)
 CanOpen(o) == CanOpenB(objs[o])
 \* Backend::is_available (metrics / cluster availability): the window does not count, the exhausted budget does
 AvailableB(b) == b.healthy /\ b.status = "normal" /\ b.tries < MaxTries
 
 Primaries == {o \in Listed : ~objs[o].backup /\ CanOpen(o)}
 Backups   == {o \in Listed : objs[o].backup /\ CanOpen(o)}
-FailOpen  == {o \in Listed : objs[o].status = "normal" /\ ~objs[o].waiting}
+FailOpen  == {o \in Listed : objs[o].status = "normal" /\ ~Waiting(objs[o])}
 Eligible  == IF Primaries # {} THEN Primaries ELSE IF Backups # {} THEN Backups ELSE FailOpen
 
 Load(o) == IF metric = "reqs" THEN objs[o].reqs ELSE objs[o].conns
@@ -92,17 +127,33 @@ Load(o) == IF metric = "reqs" THEN objs[o].reqs ELSE objs[o].conns
 \* The "eligible set" of the property: which backends (identity) with which affinity parameters.
 EffW(w) == IF w < 1 THEN 1 ELSE w
 Coarse(E) == {<<objs[o].id, objs[o].addr, EffW(objs[o].weight)>> : o \in E}
-\* Maglev's table is rebuilt from the full list by every add / upsert / removal / policy change, so it is a
-\* function of the current list (in order).  HRW has no table.
-Fine == IF policy = "maglev" /\ "MaglevRebuild" \in Deviations
-        THEN [i \in 1..Len(list) |-> <<objs[list[i]].addr, EffW(objs[list[i]].weight)>>]
-        ELSE <<>>
+\* Maglev's table is built from the full list by every add / upsert / removal and when the policy object is
+\* installed, so it is a function of the current list (in order).  HRW has no table.
+BasisOf(l, f) == [i \in 1..Len(l) |-> <<f[l[i]].addr, EffW(f[l[i]].weight)>>]
+FullBasis == BasisOf(list, objs)
+\* cold start (Maglev::next_available_backend on an empty table): built from the candidates handed to the lookup
+CandBasis == BasisOf(SelectSeq(list, LAMBDA o : o \in Eligible), objs)
+\* the table a keyed lookup works with
+EffBasis == IF policy = "maglev" /\ basis = <<>> THEN CandBasis ELSE basis
+\* a table entry resolves to a candidate; otherwise the lookup falls back to round robin over the candidates
+Resolves == \E o \in Eligible : \E i \in 1..Len(EffBasis) : EffBasis[i][1] = objs[o].addr
+
+\* By which table an affinity answer is remembered: nothing when the table is a function of the eligible set as the
+\* property wants it; the table basis where a deviation says the code's table depends on more than that.
+Fine == CASE policy # "maglev" -> <<>>
+          [] "MaglevRebuild" \in Deviations -> EffBasis
+          [] "ColdStartTable" \in Deviations /\ EffBasis # FullBasis -> EffBasis
+          [] OTHER -> <<>>
 
 Affine(k) == policy \in {"hrw", "maglev"} /\ k # NoKey
 
-\* the affinity policies answered this key over this eligible set before: same address again
+\* the affinity policies answered this key over this eligible set before: same address again (the round-robin
+\* fallback of a table that knows none of the candidates is the only lookup that is not a function)
 AffOK(o, k) ==
-  \A r \in aff : (r.key = k /\ r.coarse = Coarse(Eligible) /\ r.fine = Fine) => r.addr = objs[o].addr
+  \/ policy = "maglev" /\ ~Resolves
+  \/ /\ policy = "maglev" => \E i \in 1..Len(EffBasis) : EffBasis[i][1] = objs[o].addr    \* a table entry
+     /\ \A r \in aff : (r.policy = policy /\ r.key = k /\ r.coarse = Coarse(Eligible) /\ r.fine = Fine)
+                           => r.addr = objs[o].addr
 
 \* leastLoaded: a minimum of the metric.  p2c (load_balancing.rs PowerOfTwo): the code keeps the two least
 \* loaded candidates and draws one of them, so at most one eligible backend is strictly lighter than the answer.
@@ -139,6 +190,7 @@ AddBackend(s, c) ==
         ELSE LET o == list[CHOOSE i \in idx : TRUE]
              IN /\ objs' = [objs EXCEPT ![o].backup = c.backup, ![o].sticky = c.sticky, ![o].weight = c.weight]
                 /\ UNCHANGED <<list, nextOid>>
+     /\ basis' = IF policy = "maglev" THEN BasisOf(list', objs') ELSE <<>>
      /\ UNCHANGED <<policy, metric, aff>>
 
 \* BackendList::remove_backend: every backend at the address; returns their ids in list order
@@ -148,15 +200,18 @@ RemoveBackend(a) ==
   /\ Step([op |-> "Remove", addr |-> a, ret |-> RemovedIds(a)])
   /\ list' = SelectSeq(list, LAMBDA o : objs[o].addr # a)
   /\ objs' = Sweep(objs, list')
+  /\ basis' = IF policy = "maglev" THEN BasisOf(list', objs') ELSE <<>>
   /\ UNCHANGED <<policy, metric, nextOid, aff>>
 
-\* a new policy object; the load metric only exists for the two load-based policies
+\* a new policy object (also what every AddCluster of an existing cluster does, with the policy it already
+\* has); the load metric only exists for the two load-based policies.  The affinity history is kept: installing
+\* the policy again does not change the eligible set, and an affinity policy is a function of key and set.
 SetPolicy(p, m) ==
   /\ Step([op |-> "SetPolicy", policy |-> p, metric |-> m])
   /\ policy' = p
   /\ metric' = IF p \in {"leastLoaded", "p2c"} THEN m ELSE "conns"
-  /\ aff' = {}
-  /\ UNCHANGED <<objs, list, nextOid>>
+  /\ basis' = IF p = "maglev" /\ "ColdStartTable" \notin Deviations THEN FullBasis ELSE <<>>
+  /\ UNCHANGED <<objs, list, nextOid, aff>>
 
 ---------------------------------------------------------------------------
 (* Health (HealthState::record_success / record_failure with hysteresis) *)
@@ -167,7 +222,7 @@ HealthUp(o, th) ==
       h2 == b.healthy \/ cs2 >= th
   IN /\ Step([op |-> "Health", oid |-> o, up |-> TRUE, th |-> th, ret |-> (h2 # b.healthy)])
      /\ objs' = [objs EXCEPT ![o].cf = 0, ![o].cs = cs2, ![o].healthy = h2]
-     /\ UNCHANGED <<list, policy, metric, nextOid, aff>>
+     /\ UNCHANGED <<list, policy, metric, basis, nextOid, aff>>
 
 HealthDown(o, th) ==
   LET b == objs[o]
@@ -175,36 +230,49 @@ HealthDown(o, th) ==
       h2 == b.healthy /\ ~(cf2 >= th)
   IN /\ Step([op |-> "Health", oid |-> o, up |-> FALSE, th |-> th, ret |-> (h2 # b.healthy)])
      /\ objs' = [objs EXCEPT ![o].cs = 0, ![o].cf = cf2, ![o].healthy = h2]
-     /\ UNCHANGED <<list, policy, metric, nextOid, aff>>
+     /\ UNCHANGED <<list, policy, metric, basis, nextOid, aff>>
 
 \* BackendMap::set_health_check_config(None): every registered backend back to pristine healthy
 ResetHealth ==
   /\ Step([op |-> "ResetHealth"])
   /\ objs' = [o \in Live |-> IF o \in Listed THEN [objs[o] EXCEPT !.healthy = TRUE, !.cs = 0, !.cf = 0] ELSE objs[o]]
-  /\ UNCHANGED <<list, policy, metric, nextOid, aff>>
+  /\ UNCHANGED <<list, policy, metric, basis, nextOid, aff>>
 
 ---------------------------------------------------------------------------
-(* Back-off (retry.rs): fail() inside the window is ignored; otherwise it opens a window of at    *)
-(* least one second and counts a try (saturating at the budget); succeed() clears everything;      *)
-(* the window ends by the passage of time.  can_try() only looks at the window, never at the count. *)
+(* Back-off (retry.rs ExponentialBackoffPolicy), with the policy's own clock arithmetic:            *)
+(*   fail():    if last_try.elapsed() < wait -> ignored ("already in back off"); otherwise a window   *)
+(*              of 1 .. 2^tries - 1 seconds is drawn, last_try = now, one try counted (saturating);   *)
+(*   succeed(): wait = 0, last_try = now, tries = 0;                                                  *)
+(*   can_try(): WAIT while last_try.elapsed() < wait - it never looks at the count;                   *)
+(*   the window ends by the passage of time only (Elapse: every live backend ages together).          *)
 
-FailEffect(b) == IF b.waiting THEN b ELSE [b EXCEPT !.waiting = TRUE, !.tries = Min2(b.tries + 1, MaxTries)]
+FailCounted(b) == ~Waiting(b)
+WaitChoices(b) == 1..MaxW(b.tries)
 
-RetryFail(o) ==
-  /\ Step([op |-> "RetryFail", oid |-> o])
-  /\ objs' = [objs EXCEPT ![o] = FailEffect(objs[o])]
-  /\ UNCHANGED <<list, policy, metric, nextOid, aff>>
+FailEffect(b, w) ==
+  IF Waiting(b) THEN b
+  ELSE [b EXCEPT !.wait = w, !.tries = Min2(b.tries + 1, MaxTries),
+                 !.age = IF "FailKeepsClock" \in Deviations THEN b.age ELSE 0,
+                 !.bo = IF b.bo > 0 THEN b.bo ELSE w]
+
+RetryFail(o, w) ==
+  /\ w \in WaitChoices(objs[o])
+  /\ (Waiting(objs[o]) => w = 1)       \* an ignored failure draws nothing: one instance is enough
+  /\ Step([op |-> "RetryFail", oid |-> o, counted |-> FailCounted(objs[o]), w |-> w, wmax |-> MaxW(objs[o].tries)])
+  /\ objs' = [objs EXCEPT ![o] = FailEffect(objs[o], w)]
+  /\ UNCHANGED <<list, policy, metric, basis, nextOid, aff>>
 
 RetrySucceed(o) ==
   /\ Step([op |-> "RetrySucceed", oid |-> o])
-  /\ objs' = [objs EXCEPT ![o].waiting = FALSE, ![o].tries = 0]
-  /\ UNCHANGED <<list, policy, metric, nextOid, aff>>
+  /\ objs' = [objs EXCEPT ![o].wait = IF "SucceedKeepsWait" \in Deviations THEN @ ELSE 0,
+                          ![o].age = 0, ![o].tries = 0, ![o].bo = 0]
+  /\ UNCHANGED <<list, policy, metric, basis, nextOid, aff>>
 
-BackoffElapse(o) ==
-  /\ objs[o].waiting
-  /\ Step([op |-> "Elapse", oid |-> o])
-  /\ objs' = [objs EXCEPT ![o].waiting = FALSE]
-  /\ UNCHANGED <<list, policy, metric, nextOid, aff>>
+\* d seconds pass - for every live backend (registered or still held by a session)
+Elapse(d) ==
+  /\ Step([op |-> "Elapse", d |-> d])
+  /\ objs' = [o \in Live |-> [objs[o] EXCEPT !.age = Min2(@ + d, AgeCap), !.bo = Monus(@, d)]]
+  /\ UNCHANGED <<list, policy, metric, basis, nextOid, aff>>
 
 ---------------------------------------------------------------------------
 (* Load accounting (Backend::inc_connections / dec_connections, set_closing; active_requests is a *)
@@ -213,7 +281,7 @@ BackoffElapse(o) ==
 SetClosing(o) ==
   /\ Step([op |-> "SetClosing", oid |-> o])
   /\ objs' = [objs EXCEPT ![o].status = "closing"]
-  /\ UNCHANGED <<list, policy, metric, nextOid, aff>>
+  /\ UNCHANGED <<list, policy, metric, basis, nextOid, aff>>
 
 IncResult(b) == IF b.status = "normal" THEN b.conns + 1 ELSE NoOid
 IncEffect(b) == IF b.status = "normal" THEN [b EXCEPT !.conns = b.conns + 1, !.out = b.out + 1] ELSE b
@@ -222,7 +290,7 @@ Open(o) ==
   /\ objs[o].out < MaxLoad
   /\ Step([op |-> "Inc", oid |-> o, ret |-> IncResult(objs[o])])
   /\ objs' = [objs EXCEPT ![o] = IncEffect(objs[o])]
-  /\ UNCHANGED <<list, policy, metric, nextOid, aff>>
+  /\ UNCHANGED <<list, policy, metric, basis, nextOid, aff>>
 
 DecEffect(b) ==
   CASE b.status = "normal"  -> [b EXCEPT !.conns = Dec1(b.conns), !.out = Dec1(b.out)]
@@ -238,18 +306,18 @@ DecResult(b) ==
 Close(o) ==
   /\ Step([op |-> "Dec", oid |-> o, ret |-> DecResult(objs[o])])
   /\ objs' = Sweep([objs EXCEPT ![o] = DecEffect(objs[o])], list)
-  /\ UNCHANGED <<list, policy, metric, nextOid, aff>>
+  /\ UNCHANGED <<list, policy, metric, basis, nextOid, aff>>
 
 ReqStart(o) ==
   /\ objs[o].rout < MaxLoad
   /\ Step([op |-> "ReqStart", oid |-> o])
   /\ objs' = [objs EXCEPT ![o].reqs = @ + 1, ![o].rout = @ + 1]
-  /\ UNCHANGED <<list, policy, metric, nextOid, aff>>
+  /\ UNCHANGED <<list, policy, metric, basis, nextOid, aff>>
 
 ReqEnd(o) ==
   /\ Step([op |-> "ReqEnd", oid |-> o])
   /\ objs' = Sweep([objs EXCEPT ![o].reqs = Dec1(@), ![o].rout = Dec1(@)], list)
-  /\ UNCHANGED <<list, policy, metric, nextOid, aff>>
+  /\ UNCHANGED <<list, policy, metric, basis, nextOid, aff>>
 
 ---------------------------------------------------------------------------
 (* Selection.  BackendMap::backend_from_cluster_id / backend_from_sticky_session select and          *)
@@ -261,35 +329,38 @@ ConnectOk(sid, o) ==
   /\ objs[o].out < MaxLoad
   /\ Step([op |-> "Connect", sticky |-> sid, res |-> "ok", oid |-> o, addr |-> objs[o].addr])
   /\ objs' = [objs EXCEPT ![o] = IncEffect(objs[o])]
-  /\ UNCHANGED <<list, policy, metric, nextOid, aff>>
+  /\ UNCHANGED <<list, policy, metric, basis, nextOid, aff>>
 
-ConnectFail(sid, o) ==
+ConnectFail(sid, o, w) ==
   /\ o \in Admissible(NoKey, sid)
+  /\ w \in WaitChoices(objs[o])
   /\ Step([op |-> "Connect", sticky |-> sid, res |-> "fail", oid |-> o, addr |-> objs[o].addr])
-  /\ objs' = [objs EXCEPT ![o] = FailEffect(objs[o])]
-  /\ UNCHANGED <<list, policy, metric, nextOid, aff>>
+  /\ objs' = [objs EXCEPT ![o] = FailEffect(objs[o], w)]
+  /\ UNCHANGED <<list, policy, metric, basis, nextOid, aff>>
 
 ConnectNone(sid) ==
   /\ Admissible(NoKey, sid) = {}
   /\ Step([op |-> "Connect", sticky |-> sid, res |-> "none", oid |-> NoOid, addr |-> 0])
-  /\ UNCHANGED <<objs, list, policy, metric, nextOid, aff>>
+  /\ UNCHANGED <<objs, list, policy, metric, basis, nextOid, aff>>
 
 Keyed(k, o) ==
   /\ o \in Admissible(k, NoSticky)
   /\ Step([op |-> "Keyed", key |-> k, oid |-> o])
   /\ aff' = IF Affine(k)
-            THEN aff \cup {[key |-> k, coarse |-> Coarse(Eligible), fine |-> Fine, addr |-> objs[o].addr]}
+            THEN aff \cup {[policy |-> policy, key |-> k, coarse |-> Coarse(Eligible), fine |-> Fine,
+                            addr |-> objs[o].addr]}
             ELSE aff
+  /\ basis' = IF Affine(k) /\ policy = "maglev" THEN EffBasis ELSE basis      \* cold start builds the table
   /\ UNCHANGED <<objs, list, policy, metric, nextOid>>
 
 KeyedNone(k) ==
   /\ Admissible(k, NoSticky) = {}
   /\ Step([op |-> "Keyed", key |-> k, oid |-> NoOid])
-  /\ UNCHANGED <<objs, list, policy, metric, nextOid, aff>>
+  /\ UNCHANGED <<objs, list, policy, metric, basis, nextOid, aff>>
 
 ---------------------------------------------------------------------------
 
-Init == /\ objs = <<>> /\ list = <<>> /\ policy = "random" /\ metric = "conns"
+Init == /\ objs = <<>> /\ list = <<>> /\ policy = "random" /\ metric = "conns" /\ basis = <<>>
         /\ nextOid = 1 /\ aff = {} /\ steps = 0 /\ last = [op |-> "Init"]
 
 \* (one quantifier per action so that TLC's coverage names every action)
@@ -300,9 +371,9 @@ Mutate ==
   \/ \E o \in Live, th \in Thresholds : HealthUp(o, th)
   \/ \E o \in Live, th \in Thresholds : HealthDown(o, th)
   \/ ResetHealth
-  \/ \E o \in Live : RetryFail(o)
+  \/ \E o \in Live : \E w \in 1..MaxW(MaxTries) : RetryFail(o, w)
   \/ \E o \in Live : RetrySucceed(o)
-  \/ \E o \in Live : BackoffElapse(o)
+  \/ \E d \in Elapses : Elapse(d)
   \/ \E o \in Live : SetClosing(o)
   \/ \E o \in Live : Open(o)
   \/ \E o \in Live : Close(o)
@@ -312,7 +383,7 @@ Mutate ==
 Select ==
   \/ \E sid \in Stickies \cup {NoSticky} : ConnectNone(sid)
   \/ \E sid \in Stickies \cup {NoSticky}, o \in Live : ConnectOk(sid, o)
-  \/ \E sid \in Stickies \cup {NoSticky}, o \in Live : ConnectFail(sid, o)
+  \/ \E sid \in Stickies \cup {NoSticky}, o \in Live : \E w \in 1..MaxW(MaxTries) : ConnectFail(sid, o, w)
   \/ \E k \in Keys \cup {NoKey} : KeyedNone(k)
   \/ \E k \in Keys \cup {NoKey}, o \in Live : Keyed(k, o)
 
@@ -329,22 +400,28 @@ TypeOK ==
   /\ \A i, j \in 1..Len(list) : i # j => ~(objs[list[i]].id = objs[list[j]].id /\ objs[list[i]].addr = objs[list[j]].addr)
   /\ \A o \in Live : /\ objs[o].id \in Ids /\ objs[o].addr \in Addrs
                      /\ objs[o].status \in {"normal", "closing", "closed"}
-                     /\ objs[o].healthy \in BOOLEAN /\ objs[o].waiting \in BOOLEAN /\ objs[o].backup \in BOOLEAN
+                     /\ objs[o].healthy \in BOOLEAN /\ objs[o].backup \in BOOLEAN
+                     /\ objs[o].wait \in 0..MaxW(MaxTries) /\ objs[o].age \in 0..AgeCap /\ objs[o].bo \in 0..MaxW(MaxTries)
                      /\ objs[o].tries \in 0..MaxTries /\ objs[o].cs \in 0..HCap /\ objs[o].cf \in 0..HCap
                      /\ objs[o].conns \in Nat /\ objs[o].reqs \in Nat /\ objs[o].out \in Nat /\ objs[o].rout \in Nat
                      /\ (o \in Listed \/ objs[o].out > 0 \/ objs[o].rout > 0)
   /\ policy \in Policies \cup {"random"} /\ metric \in {"conns", "reqs"}
+  /\ (policy # "maglev" => basis = <<>>)
 
 Queries == ((Keys \cup {NoKey}) \X {NoSticky}) \cup ({NoKey} \X Stickies)
 
+\* "inside its failure back-off": a failure opened a back-off that neither time nor a success has ended yet
+\* (the history variable `bo`, not the policy's clock arithmetic)
+BackingOff(o) == objs[o].bo > 0
+
 \* "belongs to the request's cluster, is not being removed, is not marked unhealthy and is not inside its back-off"
-Qualifies(o) == o \in Listed /\ objs[o].status = "normal" /\ objs[o].healthy /\ ~objs[o].waiting
+Qualifies(o) == o \in Listed /\ objs[o].status = "normal" /\ objs[o].healthy /\ ~BackingOff(o)
 NoneQualifies == \A o \in Listed : ~Qualifies(o)
 
 \* (a) selection within eligibility, with the documented fail-open exception
 P_C12_OnlyEligible ==
   \A q \in Queries : \A o \in Admissible(q[1], q[2]) :
-     /\ o \in Listed /\ objs[o].status = "normal" /\ ~objs[o].waiting
+     /\ o \in Listed /\ objs[o].status = "normal" /\ ~BackingOff(o)
      /\ (objs[o].healthy \/ NoneQualifies)
 
 \* (b) a backup backend serves only when no primary qualifies (a sticky cookie naming it is the other clause)
@@ -361,11 +438,18 @@ P_C12_StickyWins ==
 
 \* (d) traffic is served whenever a backend qualifies or the fail-open set is not empty
 P_C12_Serves ==
-  \A q \in Queries : (\E o \in Listed : objs[o].status = "normal" /\ ~objs[o].waiting) => Admissible(q[1], q[2]) # {}
+  \A q \in Queries : (\E o \in Listed : objs[o].status = "normal" /\ ~BackingOff(o)) => Admissible(q[1], q[2]) # {}
 
 \* (e) affinity: one key, one eligible set (addresses and weights) => one backend address
 P_C12_Affinity ==
-  \A r1, r2 \in aff : (r1.key = r2.key /\ r1.coarse = r2.coarse) => r1.addr = r2.addr
+  \A r1, r2 \in aff : (r1.policy = r2.policy /\ r1.key = r2.key /\ r1.coarse = r2.coarse) => r1.addr = r2.addr
+
+\* (e') what (e) rests on for Maglev: the lookup table is always the one of the current list
+P_C12_TableCurrent == policy = "maglev" => basis = FullBasis
+
+\* (a') the policy's window is exactly the back-off the property talks about: open as long as the drawn time has
+\* not passed since the failure, never open without a failure since the last success
+P_C12_WindowExact == \A o \in Live : Waiting(objs[o]) <=> BackingOff(o)
 
 \* (f) counters: never negative (Nat), equal to what the callers hold, hence back to zero when all is closed
 P_C12_Counters == \A o \in Live : objs[o].conns = objs[o].out /\ objs[o].reqs = objs[o].rout
@@ -377,5 +461,5 @@ P_C12_GrowOnlyNormal ==
   [][\A o \in Live : (o \in DOMAIN objs' /\ objs'[o].conns > objs[o].conns) => objs[o].status = "normal"]_vars
 
 P_C12 == /\ P_C12_OnlyEligible /\ P_C12_BackupLast /\ P_C12_StickyWins /\ P_C12_Serves
-         /\ P_C12_Affinity /\ P_C12_Counters /\ P_C12_Retired
+         /\ P_C12_Affinity /\ P_C12_TableCurrent /\ P_C12_WindowExact /\ P_C12_Counters /\ P_C12_Retired
 =============================================================================
